@@ -106,7 +106,7 @@ def render(template_text, repo, ex):
         if kind == 'autosemi':
             # module-level const/static items the extracted code names but the template does not
             for nm in ex.auto.get((a['file'], '#semi'), []):
-                for k2 in ('const', 'static'):
+                for k2 in ('const', 'static', 'type'):
                     try:
                         s0, e0 = src.semi_item(k2, nm)
                     except rsx.LostAnchor:
